@@ -614,3 +614,99 @@ def dispatch_arms(mod: Module, fn: ast.FunctionDef, attr: str) -> dict[str, list
             else:
                 arms.setdefault(key, []).append(Arm(key, site, [], ""))
     return arms
+
+
+# --------------------------------------------------------------------------------------------------------------------
+# the names an expression READS FROM THE SCOPE IT STANDS IN (its free variables)
+# --------------------------------------------------------------------------------------------------------------------
+
+
+def _stores(t: ast.AST) -> set[str]:
+    return {n.id for n in ast.walk(t) if isinstance(n, ast.Name) and isinstance(n.ctx, ast.Store)}
+
+
+def free_loads(e: ast.AST, bound: frozenset = frozenset()) -> set[str]:
+    """names the expression reads from the enclosing scope.  A lambda's parameters and the targets of a comprehension are variables of
+    their own scope: a use of them inside the lambda body / the comprehension is not a read of the like-named variable outside (the
+    defaults of a lambda and the FIRST iterable of a comprehension are evaluated outside and do count)"""
+    if isinstance(e, ast.Name):
+        return {e.id} if isinstance(e.ctx, ast.Load) and e.id not in bound else set()
+    if isinstance(e, ast.Lambda):
+        a = e.args
+        params = {x.arg for x in a.posonlyargs + a.args + a.kwonlyargs} | {x.arg for x in (a.vararg, a.kwarg) if x is not None}
+        out: set[str] = set()
+        for d in list(a.defaults) + [d for d in a.kw_defaults if d is not None]:
+            out |= free_loads(d, bound)
+        return out | free_loads(e.body, bound | params)
+    if isinstance(e, (ast.ListComp, ast.SetComp, ast.GeneratorExp, ast.DictComp)):
+        out = set()
+        inner = bound
+        for i, g in enumerate(e.generators):
+            out |= free_loads(g.iter, bound if i == 0 else inner)
+            inner = inner | _stores(g.target)
+            for c in g.ifs:
+                out |= free_loads(c, inner)
+        for part in ([e.key, e.value] if isinstance(e, ast.DictComp) else [e.elt]):
+            out |= free_loads(part, inner)
+        return out
+    out = set()
+    for c in ast.iter_child_nodes(e):
+        out |= free_loads(c, bound)
+    return out
+
+
+def clobber_scan(rep, rule: str, mod, fn: ast.AST, where: str) -> int:
+    """vlib.loops.clobber_scan with "reads" taken as "reads from the scope of the loop" (free_loads): a `for` whose target rebinds a name
+    that its own iterable reads is evaluated with the clobbered value when the statement is executed again by an enclosing loop that does
+    not re-establish the name first.  Instance = every for-loop whose target names occur in its iterable at all (the population examined, as in
+    vlib.loops); those where the occurrence is not a free name are discharged."""
+    from vlib.loops import _assigned_before, names
+
+    n = 0
+
+    def visit(stmts: list, outer: list) -> None:
+        nonlocal n
+        for st in stmts:
+            if isinstance(st, (ast.FunctionDef, ast.AsyncFunctionDef, ast.ClassDef)):
+                continue
+            if isinstance(st, (ast.For, ast.AsyncFor)):
+                tgt = names(st.target, ast.Store)
+                clob = sorted(tgt & free_loads(st.iter))
+                if not clob and tgt & names(st.iter, ast.Load):
+                    # examined and discharged: the like-named variable inside the iterable belongs to a lambda / comprehension of its own
+                    n += 1
+                    rep.ob(rule, mod, where, "for %s in %s" % (norm(st.target), norm(st.iter)), True,
+                           "the iterable mentions %s only as a variable of a lambda / comprehension of its own, it does not read the loop's target" % sorted(tgt & names(st.iter, ast.Load)), node=st)
+                if clob:
+                    n += 1
+                    bad = []
+                    for nm in clob:
+                        for o in outer:
+                            otgt = names(o.target, ast.Store) if isinstance(o, (ast.For, ast.AsyncFor)) else set()
+                            if nm in otgt or _assigned_before(o.body, st, nm):
+                                continue
+                            bad.append(nm)
+                            break
+                    rep.ob(rule, mod, where, "for %s in %s" % (norm(st.target), norm(st.iter)), not bad,
+                           ("loop target rebinds %s, which the loop's own iterable reads, and the loop is re-executed by an enclosing loop without "
+                            "re-establishing it: later iterations evaluate the pattern with the clobbered value" % bad) if bad else
+                           "target rebinds %s read by its iterable, but the statement runs once per binding (no enclosing loop re-executes it with the clobbered value)" % clob,
+                           node=st)
+                visit(st.body, outer + [st])
+                visit(st.orelse, outer)
+            elif isinstance(st, ast.While):
+                visit(st.body, outer + [st])
+                visit(st.orelse, outer)
+            else:
+                for f in ("body", "orelse", "finalbody"):
+                    v = getattr(st, f, None)
+                    if v:
+                        visit(v, outer)
+                for h in getattr(st, "handlers", []) or []:
+                    visit(h.body, outer)
+                if isinstance(st, ast.Match):
+                    for c in st.cases:
+                        visit(c.body, outer)
+
+    visit(fn.body, [])  # type: ignore[attr-defined]
+    return n
